@@ -624,5 +624,11 @@ def abstract_ctor(fn, text):
         pass
     # the working text at the point where sign handling ends
     work = [v for k, v in env.items() if k not in (params[1], 'is_blob') and isinstance(v, str)]
+    # ... which is the local the constructor finally stores as the term text
+    final_names = [n.value.id for n in ast.walk(fn) if isinstance(n, ast.Assign) and isinstance(n.value, ast.Name) and any(
+        isinstance(t, ast.Attribute) and t.attr == 'Term' and isinstance(t.value, ast.Name) and t.value.id == 'self' for t in n.targets)]
+    final = [env[nm] for nm in final_names if isinstance(env.get(nm), str)]
+    if final and len(set(final)) == 1:
+        work = work + [final[0]]
     stored = fields.get('Term', work[-1] if work else None)
     return fields.get('Constant'), stored
